@@ -268,8 +268,17 @@ class Normalizer:
                 return Form(f.r, f.s, f.notes + ["abs-weakened"])
             if fn in POW_NAMES and len(e.args) == 2:
                 return self.form(ast.BinOp(left=e.args[0], op=ast.Pow(), right=e.args[1]))
-            if fn == "np.divide" and len(e.args) == 2:
+            if fn in ("np.divide", "np.true_divide") and len(e.args) == 2 and not e.keywords:
                 return self.form(e.args[0]).div(self.form(e.args[1]))
+            if fn == "np.multiply" and len(e.args) == 2 and not e.keywords:
+                return self.form(e.args[0]).mul(self.form(e.args[1]))
+            if fn == "np.add" and len(e.args) == 2 and not e.keywords:
+                return self.form(e.args[0]).add(self.form(e.args[1]), 1)
+            if fn == "np.subtract" and len(e.args) == 2 and not e.keywords:
+                return self.form(e.args[0]).add(self.form(e.args[1]), -1)
+            if fn == "np.square" and len(e.args) == 1 and not e.keywords:
+                f = self.form(e.args[0])
+                return f.mul(f)
             # function atom: arguments canonicalised through their own normal form text
             parts = []
             for a in e.args:
@@ -347,6 +356,10 @@ def indefinite_mismatch(nc: "Normalizer", ns: "Normalizer") -> str:
 
     if call_heads(nc) - call_heads(ns) and call_heads(ns) - call_heads(nc):
         return "different uninterpreted functions " + str(sorted(call_heads(nc) ^ call_heads(ns)))
+    # an atom that is itself a program (a comprehension, a lambda) is not an operand the algebra knows anything about
+    opaque = [a for a in nc.atoms if a not in ns.atoms and (" for " in a and " in " in a or a.lstrip("(").startswith("lambda "))]
+    if opaque:
+        return "operand(s) computed by a comprehension the algebra does not interpret: " + str(sorted(x[:80] for x in opaque)[:2])
     unknown = [a for a in nc.atoms if a not in ns.atoms and not a.startswith("REF[") and _structured(a)]
     if unknown:
         return "operand(s) obtained by a slice / fancy index the specification does not name: " + str(sorted(unknown)[:3])
